@@ -199,7 +199,7 @@ def errStr : ApiErr → String
 def eventStr : Event → String
   | .apply k created changed => s!"A {keyStr k} {if created then "+" else if changed then "c" else "n"}"
   | .merge k changed owners res => s!"M {keyStr k} {match res with | some e => "!" ++ errStr e | none => if changed then "c" else "n"} [{refsStr owners}]"
-  | .delete k u rv res => s!"D {keyStr k} u={u} rv={rv} {match res with | none => "ok" | some e => errStr e}"
+  | .delete k u _ res => s!"D {keyStr k} u={u} rv {match res with | none => "ok" | some e => errStr e}"
 
 def outcomeStr : Outcome → String
   | .ok failed => "ok:" ++ ",".intercalate failed
